@@ -182,7 +182,12 @@ func ZZ_C05_Lifecycle(q, closers, handlerClose, nreads, rkind, swallow int) {
 // effect (a user's error or the transport fault), every Close call returns, the context ends, nothing hangs.
 //
 //	what: 0 the first Writev fails, 1 the first Flush fails
+//
+//	closers: bits 0-1 the number of user Close calls (0..2); bits 2-3 the number of further writes issued behind the
+//	first one (so that packets may be queued behind the failing batch)
 func ZZ_C05_WriteFaultClose(q, what, closers int) {
+	extra := closers >> 2
+	closers &= 3
 	tr := newZZTransport()
 	tr.yield = true
 	fault := &zzNetErr{timeout: false}
@@ -201,6 +206,13 @@ func ZZ_C05_WriteFaultClose(q, what, closers int) {
 	pl.ServeChannel(ch)
 	n, err := ch.Write1([]byte{0x41})
 	vrt.Assert(err == nil && n == 1, "c05-write-accepted-on-open-channel")
+	if extra > 0 {
+		vrt.Go("more-writes", func() {
+			for i := 0; i < extra; i++ {
+				ch.Write1([]byte{byte(0x42 + i)}) // accepted or refused (the channel may already be closing)
+			}
+		})
+	}
 	errs := []error{zzErrA, zzErrB}
 	var ids [2]int
 	returned := 0
